@@ -216,6 +216,7 @@ type job struct {
 	DetFrom  int64    `json:"det_from"`
 	DetTo    int64    `json:"det_to"`
 	Deadline int64    `json:"deadline_s"`
+	Reverse  bool     `json:"reverse,omitempty"`
 	Known    []string `json:"known,omitempty"`
 	MaxViol  int      `json:"max_violation_records"`
 }
@@ -396,7 +397,7 @@ func check(id, tier string, keep bool, runsOverride, secsOverride int64) int {
 	// determinism probes: the first detN runs again, in separate processes, at other GOMAXPROCS
 	for _, p := range []int{1, 4, 16} {
 		jobs = append(jobs, job{Mode: "search", Tier: tier, Seed: seed, From: 0, To: detN, Deadline: secs, Known: append(knownSigs, "*"), MaxViol: 0,
-			DetFrom: 0, DetTo: detN})
+			DetFrom: 0, DetTo: detN, Reverse: p == 4})
 		jprocs = append(jprocs, p)
 	}
 	results := make([]*workerResult, len(jobs))
